@@ -38,6 +38,12 @@ type aggregator struct {
 	direct_ map[string]*directFinding
 	dorder  []string
 
+	// prefix is put in front of every finding key and counter of this aggregator
+	// ("" for the live-cache passes, "reload-" for the dump/load passes);
+	// where is appended to "answered from cache" in the texts.
+	prefix string
+	where  string
+
 	cov cover
 }
 
@@ -249,7 +255,15 @@ func diffTokens(a, b *qspec) []string {
 // collision records: query served (index i) was answered from cache with the
 // marker stored for query stored (index m), and they ask different questions.
 func (a *aggregator) collision(r *runner, m, i, pass int) {
-	st, sv := &r.specs[m], &r.specs[i]
+	a.collisionCase(&r.specs[m], &r.specs[i], pass, func() (replayCase, string) {
+		c := r.caseFor([]int{m, i})
+		return c, fmt.Sprintf("pass %d, %s order: queries[1] was answered from the cache with the marker the terminal had given to queries[0]", pass, c.Order)
+	})
+}
+
+// collisionCase is collision with the replay case and the observation text
+// supplied by the caller (built only for the first witnesses of a class).
+func (a *aggregator) collisionCase(st, sv *qspec, pass int, mk func() (replayCase, string)) {
 	tok := diffTokens(st, sv)
 	k := strings.Join(tok, "+")
 	a.mu.Lock()
@@ -261,9 +275,9 @@ func (a *aggregator) collision(r *runner, m, i, pass int) {
 	}
 	b.count++
 	if len(b.wit) < 3 {
-		c := r.caseFor([]int{m, i})
+		c, observed := mk()
 		c.Detail = map[string]any{
-			"observed":   fmt.Sprintf("pass %d, %s order: queries[1] was answered from the cache with the marker the terminal had given to queries[0]", pass, c.Order),
+			"observed":   observed,
 			"differ_in":  tok,
 			"stored_for": describe(st.toJSON()),
 			"served_to":  describe(sv.toJSON()),
@@ -308,10 +322,14 @@ func (a *aggregator) finish(replayKey string) {
 	a.mu.Lock()
 	defer a.mu.Unlock()
 	report := func(key, what string, c replayCase) {
+		key = a.prefix + key
 		if replayKey != "" {
 			key = replayKey
 		}
 		c.Key = key
+		if a.where != "" {
+			what = strings.Replace(what, "answered from cache", "answered from cache "+a.where, 1)
+		}
 		rep.Violation(key, what, c)
 	}
 	for _, k := range a.dorder {
@@ -408,10 +426,10 @@ func (a *aggregator) finish(replayKey string) {
 		w := m.wit[0]
 		report(key, fmt.Sprintf("query %s was answered from cache with the answer stored for %s: they differ in %s together; not explained by the single-component findings of this run (%d witnesses)", describe(w.served), describe(w.stored), strings.Join(m.tokens, " and "), m.count), w.c)
 	}
-	rep.Count("collisions_in_several_components_explained_by_single_component_findings", explained)
+	rep.Count(a.prefix+"collisions_in_several_components_explained_by_single_component_findings", explained)
 	total := int64(0)
 	for _, b := range a.buckets {
 		total += b.count
 	}
-	rep.Count("collision_witnesses", total)
+	rep.Count(a.prefix+"collision_witnesses", total)
 }
